@@ -100,6 +100,26 @@ def generate(rng, tier):
                 if rng.random() < 0.5:
                     v = [base + (x - base) * rng.choice([1, 2, 100, 255]) for x in v]
                 cases.append({"line": "I mono " + t_vec(v, gen.fi, rng.choice(gen.LAYS_1D)), "meta": {"v": v}})
+    # f32 and i32 vectors: every word up to length 5; f32 also at magnitudes where neighbouring values are one f32-ulp apart
+    # (closer than any f64 detour distinguishes after a narrowing cast) and with NaN / infinities; i32 near the ends of its range
+    import vlib
+    for n in range(1, 6):
+        for word in itertools.product("<=>", repeat=n):
+            for base in (rng.randint(-3, 3), 2 ** 24, -(2 ** 30), 2_000_000_000):
+                v = realise(word, base if abs(base) < 2 ** 31 - 10 else base - 10)
+                cases.append({"line": "J mono " + t_vec(v, gen.fi, rng.choice(gen.LAYS_1D)), "meta": {"v": v}})
+            for start in (float(rng.randint(-3, 3)), 16777216.0, -3.0e9, 1.0e-40, 3.0e38):
+                vals = [vlib.f32_round(start)]
+                for w in word:
+                    x = vals[-1]
+                    vals.append(x if w == "=" else vlib.next_up32(x) if w == "<" else vlib.next_down32(x))
+                cases.append({"line": "G mono " + t_vec(vals, vlib.ff32, rng.choice(gen.LAYS_1D)), "meta": {"v": vals}})
+    for n in range(1, 5):
+        for mask in range(1, 2 ** n):
+            vals = [math.nan if (mask >> i) & 1 else float(i) for i in range(n)]
+            cases.append({"line": "G mono " + t_vec(vals, vlib.ff32, rng.choice(gen.LAYS_1D)), "meta": {"v": vals, "nan": True}})
+    for vals in ([-math.inf, 0.0, math.inf], [math.inf, math.inf], [0.0, -0.0, 1.0]):
+        cases.append({"line": "G mono " + t_vec(vals, vlib.ff32), "meta": {"v": vals}})
     # random long vectors
     for _ in range(gen.N(tier, 60, 600)):
         n = rng.randint(10, 400)
